@@ -27,6 +27,7 @@ type DBPlan struct {
 	Conns   [][]DMsg `json:"conns"`
 	Writes  []DWrite `json:"writes,omitempty"`
 	Veto    bool     `json:"veto,omitempty"` // a pre-put hook rejects every write to one key
+	SlowQuery int `json:"slow_query,omitempty"` // >0: this many extra records are stored, and the client of the first connection stops reading for a few seconds after the first record of its first request (a query or qsub) arrived
 	Stall   int `json:"stall,omitempty"` // >0: flood scenario: the first connection's client stops reading after its first notification while another connection makes this many writes
 }
 
@@ -124,6 +125,21 @@ func genC13(rng *rand.Rand, tier string) *DBPlan {
 		if len(p.Conns) > 3 {
 			p.Conns = p.Conns[:3]
 		}
+	case 7, 8, 9:
+		// slow client: more records than a result stream buffers, and a client that stops reading in the middle
+		p.SlowQuery = 12 + rng.IntN(8)
+		p.Conns = [][]DMsg{{{Kind: []string{"query", "qsub"}[rng.IntN(2)], Query: 1}}}
+		if rng.IntN(2) == 0 {
+			p.Conns = append(p.Conns, []DMsg{{Kind: "get", Key: 0, Gap: 2}})
+		}
+		p.Writes = nil
+		return p
+	case 10:
+		// a subscriber that stalls for a moment behind a couple of hundred writes, then reads on
+		p.Stall = 150 + rng.IntN(100)
+		p.Conns = [][]DMsg{{{Kind: "sub", Query: 1}}, {{Kind: "get", Key: 5, Gap: 3}}}
+		p.Writes = nil
+		return p
 	case 5, 6:
 		// flood: a subscriber whose client has stopped reading, and more writes than its feed holds
 		p.Stall = 1005 + rng.IntN(20)
@@ -174,6 +190,7 @@ type c13State struct {
 	conns  []*connState
 	dir    string
 	writes []bgWrite
+	lateWrites []bgWrite
 }
 
 var c13Run int
@@ -216,6 +233,10 @@ func execC13(p *DBPlan, rc *simkit.RunCtx) {
 	put(dKeys[2], sr)
 	rw, _ := record.NewWrapper(dKeys[3], &record.Meta{}, dsd.RAW, []byte("raw bytes"))
 	put(dKeys[3], rw)
+	for i := 0; i < p.SlowQuery; i++ {
+		k := fmt.Sprintf("testdb:json/bulk%02d", i)
+		put(k, wj(k, fmt.Sprintf("bulk-%d", i), "alpha"))
+	}
 	if rc.Failed() {
 		return
 	}
@@ -226,6 +247,7 @@ func execC13(p *DBPlan, rc *simkit.RunCtx) {
 		}
 	}
 	var wg sync.WaitGroup
+	slowDone := false
 	var stallGate chan struct{}
 	if p.Stall > 0 {
 		stallGate = make(chan struct{})
@@ -235,6 +257,10 @@ func execC13(p *DBPlan, rc *simkit.RunCtx) {
 		cs := &connState{reqs: map[string]*reqRec{}}
 		ci := ci
 		a := api.CreateDatabaseAPI(func(data []byte) {
+			if p.SlowQuery > 0 && ci == 0 && !slowDone && strings.Contains(string(data), "|ok|") {
+				slowDone = true
+				time.Sleep(3 * time.Second) // the client does not read for a while
+			}
 			if p.Stall > 0 && ci == 0 && stallGate != nil {
 				// the client of this connection has stopped reading: sending blocks until the end of the run
 				if strings.Contains(string(data), "|upd|") || strings.Contains(string(data), "|new|") {
@@ -365,6 +391,19 @@ func execC13(p *DBPlan, rc *simkit.RunCtx) {
 	}
 	wg.Wait()
 	simrt.AwaitQuiescence(3 * time.Second)
+	if p.SlowQuery > 0 {
+		// later changes: a request that has ended (done, or error) gets no further notifications
+		simrt.AwaitQuiescence(5 * time.Second)
+		for i := 0; i < 2; i++ {
+			k := fmt.Sprintf("testdb:json/bulk%02d", i)
+			bw := bgWrite{Key: k, Inv: simrt.Seq()}
+			bw.OK = priv.Put(wj(k, fmt.Sprintf("late-%d", i), "alpha")) == nil
+			bw.Ret = simrt.Seq()
+			s.lateWrites = append(s.lateWrites, bw)
+		}
+		simrt.AwaitQuiescence(3 * time.Second)
+		rc.Probe("slow-client-query")
+	}
 	if stallGate != nil {
 		// while the stalled client still is not reading: every write of the flood has been answered
 		fc := s.conns[len(s.conns)-1]
@@ -374,6 +413,19 @@ func execC13(p *DBPlan, rc *simkit.RunCtx) {
 		close(stallGate)
 		stallGate = nil
 		simrt.AwaitQuiescence(3 * time.Second)
+		if p.Stall <= 300 && !rc.Failed() {
+			// a couple of hundred changes behind: the subscriber that reads on is told about every one of them
+			n := 0
+			for _, r := range s.conns[0].replies {
+				if r.Type == "upd" || r.Type == "new" {
+					n++
+				}
+			}
+			if n < len(fc.replies) {
+				rc.Fail("C13.notification-lost", "a subscriber that fell a couple of hundred changes behind and then read on was not notified of all of them", fmt.Sprintf("%d writes answered, %d notifications", len(fc.replies), n))
+			}
+			rc.Probe("moderate-stall-completeness")
+		}
 	}
 	// cancel everything that is still subscribed so that the handlers end
 	for ci, cs := range s.conns {
@@ -522,6 +574,15 @@ func checkC13(p *DBPlan, rc *simkit.RunCtx) {
 					default:
 						bad("unexpected reply type " + t)
 						return
+					}
+				}
+				if !cancelled {
+					// an error ends the request: no records or notifications after it
+					for i, t := range types {
+						if t == "error" && i != len(types)-1 {
+							bad("replies after the error that ended the request")
+							return
+						}
 					}
 				}
 				if !hasType(types, "done") && !hasType(types, "error") {
